@@ -36,9 +36,18 @@ Fixpoint eqz (a b : list Z) : bool :=
   | _, _ => false
   end.
 
+(* the conformance verdict of [run] counts the representative stream of a type ([EvData]) and further
+   streams ([EvFresh]) separately; a history that uses both for one server-initiated type would get one
+   stream of allowance too many, so such histories are not accepted as cases *)
+Definition uses_data (ty : Z) (x : ev) : bool := match x with EvData t _ => t =? ty | _ => false end.
+Definition uses_fresh (ty : Z) (x : ev) : bool := match x with EvFresh t _ _ => (if ty =? 1 then t =? 1 else negb (t =? 1)) | _ => false end.
+Definition no_mix (h : list ev) : bool :=
+  negb (existsb (uses_data 1) h && existsb (uses_fresh 1) h) &&
+  negb (existsb (fun x => match x with EvData t _ => negb (t =? 0) && negb (t =? 1) | _ => false end) h && existsb (uses_fresh 2) h).
+
 Definition check_case (c : case) : bool :=
   match c with
   | SimCase _ _ _ conf probes =>
     let o := model_obs c in
-    eqz (o_codes o) (map snd probes) && (negb conf || o_conformant o)
+    eqz (o_codes o) (map snd probes) && (negb conf || o_conformant o) && no_mix (map fst probes)
   end.
